@@ -289,11 +289,20 @@ func cmdCheck(args []string) int {
 			fmt.Fprintf(&b, "obligation: %s\nkind: %s\nfunction: %s\nposition: %s\nstatus: %s (solver %s, %.2fs)\n", o.Name, o.Kind, o.Fn, o.Pos, o.Status, o.Solver, o.Seconds)
 			if o.Status == "sat" {
 				fmt.Fprintf(&b, "\nverifier counterexample (model of the pre-state of %s):\n%s\n", o.Fn, truncate(o.Model, 20000))
-				if w != nil {
+				if w != nil && o.ReplaySrc != "" {
+					ok, txt := (&replayPlan{pkgDir: w.PkgByPath[modPath].Dir, pkgPath: modPath, src: o.ReplaySrc}).run(w)
+					b.WriteString("\nreplay on the real code (every instance of the schema contract is executed):\n" + txt + "\n")
+					replayed = ok
+				} else if w != nil {
 					ok, txt := w.tryReplay(run, o)
 					b.WriteString("\nreplay on the real code:\n" + txt + "\n")
 					replayed = ok
 				}
+			} else if o.ReplaySrc != "" && w != nil {
+				fmt.Fprintf(&b, "\nsolver output:\n%s\n", truncate(o.Output, 2000))
+				ok, txt := (&replayPlan{pkgDir: w.PkgByPath[modPath].Dir, pkgPath: modPath, src: o.ReplaySrc}).run(w)
+				b.WriteString("\nreplay on the real code (every instance of the schema contract is executed):\n" + txt + "\n")
+				replayed = ok
 			} else {
 				fmt.Fprintf(&b, "\nundecided, not refuted: this obligation was discharged on the unchanged tree and no solver discharges it now.\nsolver output:\n%s\n", truncate(o.Output, 4000))
 			}
@@ -330,30 +339,40 @@ func cmdCheck(args []string) int {
 		}
 		report(o, reason)
 	}
+	// obligations of the baseline that can no longer be generated: one violation per function
+	missByFn := map[string][]string{}
+	var missFns []string
 	for _, n := range missing {
-		// an obligation of the baseline that can no longer be generated
 		kind := ""
+		fnName := n
 		if i := strings.Index(n, "#"); i >= 0 {
 			kind = n[i+1:]
+			fnName = n[:i]
 		}
 		if strings.HasPrefix(kind, "bounds") || strings.HasPrefix(kind, "nil") || strings.HasPrefix(kind, "slice") || strings.HasPrefix(kind, "div0") ||
-			strings.HasPrefix(kind, "pre@") || strings.HasPrefix(kind, "typeassert") || strings.HasPrefix(kind, "shift") || strings.HasPrefix(kind, "makeslice") || strings.HasPrefix(kind, "nilmap") {
-			continue // safety obligations follow the code: fewer checks is not a violation
+			strings.HasPrefix(kind, "pre@") || strings.HasPrefix(kind, "typeassert") || strings.HasPrefix(kind, "shift") || strings.HasPrefix(kind, "makeslice") || strings.HasPrefix(kind, "nilmap") ||
+			strings.HasPrefix(kind, "frame") || strings.HasPrefix(kind, "loop-frame") || strings.HasPrefix(kind, "panic") {
+			continue // safety and frame obligations follow the code: fewer of them is not a violation
 		}
 		if _, ok := openByObl[n]; ok {
 			continue
 		}
+		if _, ok := missByFn[fnName]; !ok {
+			missFns = append(missFns, fnName)
+		}
+		missByFn[fnName] = append(missByFn[fnName], n)
+	}
+	for _, fnName := range missFns {
 		fnOut := ""
 		for _, os_ := range run.outside {
-			if strings.HasPrefix(n, strings.SplitN(os_, ": ", 2)[0]+"#") {
+			if strings.HasPrefix(os_, fnName+": ") {
 				fnOut = os_
 			}
 		}
-		o := &Obligation{Name: n, Kind: "missing", Status: "not-generated", Output: fnOut}
-		if i := strings.Index(n, "#"); i >= 0 {
-			o.Fn = n[:i]
-		}
-		report(o, "baseline obligation can no longer be generated (function outside the verified subset, contract clause or function removed): "+fnOut)
+		names := missByFn[fnName]
+		o := &Obligation{Name: names[0], Kind: "missing", Status: "not-generated", Fn: fnName,
+			Output: fmt.Sprintf("%s\n%d obligations of the baseline are no longer generated for this function:\n  %s", fnOut, len(names), strings.Join(names, "\n  "))}
+		report(o, "obligations discharged on the unchanged tree can no longer be generated (the function left the verified subset, or a function / contract clause no longer binds): "+fnOut)
 	}
 	// stale known findings: listed but the obligation now holds -> not printed
 
